@@ -16,9 +16,22 @@ Proof      : coq/Props/C04.v.
              Transaction.commit's handlers) or not.  Tail.v adds the event the guard excluded (TEscape: an exception class
              leaves the tail, the arm the regenerated table gen_tx_on names runs, no test of the protocol state).
              C04_post_flip_no_damage: for every tail and handler table with tail_safe, every event list keeps every file
-             of every committed version present; C04_tail_regenerated_safe / C04_commit_tail_no_damage: the regenerated
-             tails are safe for the regenerated table; C04_unguarded_tail_damages: the proviso is necessary (an escaping
-             class with a deleting arm has a damaging run).
+             of every committed version present.  HONESTLY: under tail_safe an enabled TEscape is Fault.v's EAbort
+             (C04_post_flip_escape_is_abort), so C04_post_flip_{no_damage,unreachable,liveness} are C04_no_damage /
+             C04_unreachable / C04_liveness transported to the unguarded machine; what they add is the hypothesis, a decidable
+             fact about the regenerated tail (C04_tail_regenerated_safe / C04_commit_tail_no_damage) whose necessity is
+             C04_unguarded_tail_damages (an escaping class with a deleting arm has a damaging run).  All assume `sound c`.
+             The tail counts as fallible EVERYTHING outside a swallowing try except names, constants, attribute reads / writes,
+             displays, `not` / and / or / is / ==, f-strings and logging statements: int(), next(), json.loads, subscripts,
+             arithmetic, unpacking, methods of local values are emitted as `TCall TKCompute false` (Transaction.commit's
+             `except Exception` arm does not ask why something raised).
+             (3) C04_clean_pre: the deleting arm (how a storage error is reported as clean) has only been run by transactions that
+             never flipped and are not in the history, in every run of the unguarded machine with a safe tail;
+             C04_clean_pre_regenerated: the commit-point write reports a plain storage error only where a failed write is
+             guaranteed invisible, and no Exception leaves a regenerated tail.  C04_ambiguous: on the regenerated tables, an
+             unknowable outcome of the pointer write is AMBIGUOUS and its arm keeps files and metadata on every attempt; in the
+             machine an escaping ambiguous error deletes nothing, for any tail.  NOT proved as one theorem: C04_outcome
+             (Success => post) -- it is C01's acknowledged-iff-applied (Props/C01.v) plus C04_pre_or_post.
 Tie        : each faulty run of the real code (fault injected at storage call k of a real commit) is projected to
              model events -- protocol steps, FWrite for each file the transaction wrote, EAbort where the exception escaped
              before / at the flip, TEscape where it left the tail, FRollback when the transaction's files were deleted --
@@ -33,6 +46,12 @@ Cases      : fault at storage call k (every k) x {OSError, botocore ClientError}
              x TABLE CONFIGURATION / PRE-HISTORY (CONFIGS: retention window full / pruning at every commit / with room /
              invalid value, metadata-log bound 1, expired and deleted snapshots in the history, long histories); thorough adds
              double faults and one transaction that deletes and appends.
+             x PROCESS-WIDE CONFIGURATION (harness/lib/procconf.py: library logger at DEBUG / WARNING / CRITICAL through
+             DataShardLogger.set_level, module loggers, the application's root logger, logging.disable(INFO), the library's
+             environment variables, arbitrary configuration histories): every faulty run draws its configuration (default and
+             DEBUG most often; distribution in the evidence).  Configurations are first classified by the storage / lock calls
+             the fault-free commit issues under them; a configuration under which the commit issues DIFFERENT calls (code behind
+             `logger.isEnabledFor`, an environment switch) gets the whole fault plan again, over its own call indices.
 Oracle     : implementation-only: after every faulty run, with an independent reader: success => post-state;
              raise => pre- or post-state; every file referenced by any retained snapshot present; storage-error
              raise (not ambiguous) => pre-state; ambiguous => nothing the transaction wrote was deleted; once the pointer
@@ -45,12 +64,13 @@ import os
 
 from typing import Any, Dict, List, Optional, Tuple
 
-from harness.lib import coqbuild, protocol as P, sched as S
+from harness.lib import coqbuild, procconf, protocol as P, sched as S
 
 LEVEL = "proof"
 THEOREMS = ["C04_no_damage", "C04_unreachable", "C04_liveness", "C04_delete_only_unflipped", "C04_pre_or_post",
             "C04_handlers_keep_after_possible_flip",
-            "C04_post_flip_no_damage", "C04_post_flip_unreachable", "C04_post_flip_liveness", "C04_tail_regenerated_safe",
+            "C04_post_flip_no_damage", "C04_post_flip_unreachable", "C04_post_flip_liveness", "C04_post_flip_escape_is_abort",
+            "C04_clean_pre", "C04_clean_pre_regenerated", "C04_ambiguous", "C04_tail_regenerated_safe",
             "C04_commit_tail_no_damage", "C04_unguarded_tail_damages"]
 REQ = ["DS.Model.CommitBase", "DS.Model.TailBase", "DS.Gen.GenCommit", "DS.Gen.GenTail", "DS.Model.Commit", "DS.Model.Fault", "DS.Model.Tail"]
 MANIFEST_ENTRY = {
@@ -61,16 +81,25 @@ MANIFEST_ENTRY = {
                   "(C04_post_flip_no_damage, C04_commit_tail_no_damage, C04_unguarded_tail_damages): the tail of every commit path "
                   "after the commit-point write is regenerated from the source (all table configurations at once: both sides of every "
                   "branch) and, with the regenerated handler table, no exception class leaving it at any point can delete a file a "
-                  "committed version references -- and any unguarded fallible call in a tail provably yields a damaging run; real "
+                  "committed version references -- and any unguarded fallible call in a tail provably yields a damaging run (under tail_safe "
+                  "these post-flip theorems reduce to C04_no_damage etc.: C04_post_flip_escape_is_abort; their content is the decidable "
+                  "hypothesis on the regenerated tail, in which every statement outside a swallowing try other than trivial assignments, "
+                  "returns and logging statements counts as fallible); C04_clean_pre (the deleting arm only ever ran for transactions "
+                  "that are not in the history), C04_clean_pre_regenerated, C04_ambiguous (unknowable pointer-write outcome => AMBIGUOUS "
+                  "=> files and metadata kept on every attempt) on the regenerated tables; all theorems assume the lock/CAS soundness of "
+                  "C01 (`sound c`); C04_outcome is not a single theorem (C01 acknowledged-iff-applied + C04_pre_or_post); real "
                   "commits with a fault injected at every storage call (exception before effect, after effect, persistent, "
                   "KeyboardInterrupt / SystemExit), both call styles, local / CAS-S3 / non-CAS-S3 backends, on default tables and on "
-                  "tables with retention / metadata-log-bound properties and pruned, expired, deleted and long histories, are "
+                  "tables with retention / metadata-log-bound properties and pruned, expired, deleted and long histories, under drawn "
+                  "process-wide configurations (log levels through every API, logging.disable, environment variables; a configuration "
+                  "that changes the calls a commit issues gets the whole fault plan of its own), are "
                   "projected onto the model and must be accepted by its strict run; the calls observed after each flip must be a word "
                   "of the regenerated tail; an implementation-only oracle judges pre/post state, file presence, ambiguity, post-flip "
                   "deletions and liveness",
     "level_note": "trusted: Coq kernel; translator/gen_commit.py (exception-handler tables of Transaction.commit / MetadataManager.commit / _write_hint_at_commit_point, C04_handlers_keep_after_possible_flip); "
-                  "translator/gen_tail.py (which calls follow the commit point and whether a try between them and Transaction.commit swallows Exception; its vocabulary of calls that touch neither "
-                  "storage nor the lock; fail-closed on anything else; checked against every observed post-flip call sequence); harness projection (where the exception escaped, which deletions "
+                  "translator/gen_tail.py (which calls follow the commit point and whether a try between them and Transaction.commit swallows Exception; outside such a try only names, constants, attribute reads/writes, displays, "
+                  "not/and/or/is/==, f-strings and `logger.*(...)` statements are taken to be infallible (logging reports handler errors itself), everything else is a fallible step; "
+                  "fail-closed on calls it cannot classify; checked against every observed post-flip call sequence); harness projection (where the exception escaped, which deletions "
                   "are a rollback); the model over-approximates which files a version references (base + everything the transaction wrote) and lets an escaping class leave the tail at any "
                   "point after the flip; in-memory S3 as in C08",
     "technique": "Coq invariant proof over commit machine + file plane + post-commit tail machine with translator-regenerated handler tables and tails; fault-injection trace validation over table configurations",
@@ -226,7 +255,17 @@ class OsFsyncFault:
         os.fsync = self.real
 
 
-def run_one(ctx, backend: str, opkind: str, style: str, inject=None, config: str = "default") -> P.CaseResult:
+def run_one(ctx, backend: str, opkind: str, style: str, inject=None, config: str = "default",
+            pconf: Optional[List[List[Any]]] = None) -> P.CaseResult:
+    """pconf: the PROCESS-WIDE configuration the whole case runs under (harness/lib/procconf.py events: log levels through every
+    API that sets them, logging.disable, the library's environment variables); None / []: the library as imported.  Records are
+    formatted as in production and written to a sink -- the harness's own logging.disable (harness/run.py) is lifted for the
+    duration of the case, so that code guarded by `logger.isEnabledFor(...)` runs when the configuration enables it."""
+    with procconf.applied(pconf or []):
+        return _run_one(ctx, backend, opkind, style, inject, config)
+
+
+def _run_one(ctx, backend: str, opkind: str, style: str, inject=None, config: str = "default") -> P.CaseResult:
     op = op_for(opkind, config)
     op["style"] = style
     case = {"ops": [op], "clock": "tick", "backend": backend, "lock": "grant_all" if backend != "local" else "real",
@@ -509,6 +548,92 @@ def observed_tail(res: P.CaseResult) -> Optional[Tuple[List[str], bool, List[Tup
     return kinds, complete, faults
 
 
+def call_signature(res: P.CaseResult) -> Tuple[Tuple[str, str], ...]:
+    """The storage / lock calls of a run, as (operation, class of path)."""
+    return tuple((e["op"], P.path_class(e["path"])) for e in res.log if e["op"] != "Sleep")
+
+
+def draw_pconf(ctx, grp: Dict[str, Any], ring: List[str]) -> Tuple[str, List[List[Any]]]:
+    """The process configuration of one faulty run: among the configurations of the group, by weight."""
+    members = grp["members"]
+    pool = [m for m in members for _ in range(procconf.WEIGHTS.get(m[0], 1))]
+    return ctx.rng.choice(pool)
+
+
+def run_plan(ctx, quick: bool, backend: str, opkind: str, style: str, config: str, grp: Dict[str, Any], keysfx: str,
+             pc_ring: List[str], pc_dist: Dict[str, int], tail_obs: list, exprs: list, meta_runs: list, bad: list,
+             reuse_runs: List[int], counters: Dict[str, int]) -> None:
+    """The whole fault plan of one (backend, operation, style, table history) under one group of process configurations."""
+    clean = grp["clean"]
+    gname = grp["members"][0][0]
+    pre, post = sig(clean.initial), sig(clean.final)
+    ncalls = len(clean.log)
+    ctx.stats.setdefault("calls_per_commit", {})[f"{backend}/{opkind}/{style}/{config}{keysfx}"] = ncalls
+    ot0 = observed_tail(clean)
+    if ot0 is not None and style != "reuse":
+        tail_obs.append(({"backend": backend, "op": opkind, "style": style, "config": config, "k": -1, "fault": "none", "proc": gname}, opkind, ot0))
+    kinds = FAULT_KINDS if backend != "local" else ["exc-before", "kbi", "sysexit", "other-before"]
+    if quick:
+        kinds = [k for k in kinds if k != "sysexit"]
+    if quick and config != "default":
+        # one exception type per backend (OSError on the file system, a botocore ClientError on the object stores)
+        kinds = ["exc-before", "kbi"] if backend == "local" else ["other-before", "exc-after", "kbi"]
+    ks = list(range(ncalls))
+    first_commit = next((i for i, e in enumerate(clean.log) if "Transaction.commit" in e["phase"] or "SnapshotManager.delete_snapshot" in e["phase"]), 0)
+    if config != "default":
+        ks = ks[first_commit:]
+    elif quick and len(ks) > 30:
+        # keep every call from the start of commit() on, sample the prefix
+        ks = sorted(set(ks[first_commit:] + ctx.rng.sample(ks[:first_commit], min(6, first_commit))))
+    plans = [(k, None, fk, False) for k in ks for fk in kinds]
+    # persistent faults: one plan per distinct (operation, class of path) the commit issues, failing from its first use on
+    seen_cls = set()
+    for k in range(first_commit, ncalls):
+        e = clean.log[k]
+        key = (e["op"], P.path_class(e["path"]))
+        if key in seen_cls:
+            continue
+        seen_cls.add(key)
+        plans.append((k, None, "exc-before", True))
+        if not quick:
+            plans.append((k, None, "other-before", True))
+    if not quick and opkind == "append" and config == "default":
+        pairs = [(k, k2) for k in ks for k2 in ks if k2 > k]
+        for k, k2 in ctx.rng.sample(pairs, min(150, len(pairs))):
+            plans.append((k, k2, ctx.rng.choice(kinds), False))
+    for k, k2, fk, sticky in plans:
+        pname, pevents = draw_pconf(ctx, grp, pc_ring)
+        pc_dist[pname] = pc_dist.get(pname, 0) + 1
+        res = run_one(ctx, backend, opkind, style, make_inject(k, fk, k2, sticky), config=config, pconf=pevents)
+        res.root = ctx.scratch + "/c04"
+        counters["total"] += 1
+        ctx.count(1, (backend, opkind, style, config, k, k2, fk, sticky, gname))
+        why = oracle(ctx, backend, opkind, style, k, fk, res, pre, post)
+        at = res.log[k] if k < len(res.log) else {}
+        where = (at.get("phase") or ("?",))[-1]
+        if why:
+            ctx.violation(f"commit-fault:{fk}{'-persistent' if sticky else ''}:{backend}:{opkind}:{style}:{config}:{where}{keysfx}",
+                          f"{why} [fault {fk}{' (persistent: every later call of the same kind fails too)' if sticky else ''} at call {k} "
+                          f"({at.get('op')} {P.path_class(at.get('path', ''))} in {where}); table history: {config}; process configuration: "
+                          f"{pname} {pevents}]",
+                          {"backend": backend, "op": opkind, "style": style, "config": config, "k": k, "k2": k2, "fault": fk,
+                           "sticky": sticky, "outcome": res.outcomes["A0"], "proc": pname, "pconf": pevents})
+        if style == "reuse":
+            reuse_runs[0] += 1
+            continue        # the second transaction on the reused object is outside the one-commit model: oracle only
+        ot = observed_tail(res)
+        if ot is not None:
+            tail_obs.append(({"backend": backend, "op": opkind, "style": style, "config": config, "k": k, "fault": fk, "sticky": sticky, "proc": pname}, opkind, ot))
+        try:
+            evs, notes = project_fault(res, backend == "s3cas")
+        except P.Nonconforming as e:
+            bad.append({"backend": backend, "op": opkind, "style": style, "config": config, "k": k, "fault": fk, "sticky": sticky,
+                        "proc": pname, "nonconforming": str(e)})
+            continue
+        exprs.append(model_expr(res, opkind, backend, evs))
+        meta_runs.append((backend, opkind, style, k, k2, fk, res, evs, post, config + ("/proc=" + pname if pname != "default" else ""), notes))
+
+
 # ------------------------------------------------------------------------------------------------ driver
 def run(ctx) -> None:
     ctx.rule = ("one real commit per run with a fault at storage call k (every k): OSError / ClientError before effect, after effect "
@@ -544,80 +669,51 @@ def run(ctx) -> None:
         combos.append(("local", "replace_txn", "with", "default"))
     exprs, meta_runs, bad = [], [], []
     tail_obs: List[Tuple[Dict[str, Any], str, Tuple[List[str], bool, List[Tuple[str, bool]]]]] = []
-    total = 0
+    counters = {"total": 0}
     reuse_runs = [0]
+    pc_ring = [n for n in procconf.NAMED for _ in range(procconf.WEIGHTS.get(n, 1))]
+    pc_dist: Dict[str, int] = {}
+    pc_split: Dict[str, List[List[str]]] = {}
     for backend, opkind, style, config in combos:
-        clean = run_one(ctx, backend, opkind, style, config=config)
-        clean.root = ctx.scratch + "/c04"
-        pre, post = sig(clean.initial), sig(clean.final)
-        ncalls = len(clean.log)
-        ctx.stats.setdefault("calls_per_commit", {})[f"{backend}/{opkind}/{style}/{config}"] = ncalls
-        if clean.outcomes["A0"][0] != "ok" or "error" in clean.final or clean.final.get("missing"):
+        clean0 = run_one(ctx, backend, opkind, style, config=config)
+        clean0.root = ctx.scratch + "/c04"
+        if clean0.outcomes["A0"][0] != "ok" or "error" in clean0.final or clean0.final.get("missing"):
             ctx.violation(f"commit-nofault:{backend}:{opkind}:{style}:{config}",
-                          f"a commit WITHOUT any fault on a table with history {config} did not leave a sound table: {clean.outcomes['A0']} "
-                          f"{clean.final.get('error') or clean.final.get('missing')}",
+                          f"a commit WITHOUT any fault on a table with history {config} did not leave a sound table: {clean0.outcomes['A0']} "
+                          f"{clean0.final.get('error') or clean0.final.get('missing')}",
                           {"backend": backend, "op": opkind, "style": style, "config": config, "k": -1, "k2": None, "fault": "none"})
             continue
-        ot0 = observed_tail(clean)
-        if ot0 is not None and style != "reuse":
-            tail_obs.append(({"backend": backend, "op": opkind, "style": style, "config": config, "k": -1, "fault": "none"}, opkind, ot0))
-        kinds = FAULT_KINDS if backend != "local" else ["exc-before", "kbi", "sysexit", "other-before"]
-        if quick:
-            kinds = [k for k in kinds if k != "sysexit"]
-        if quick and config != "default":
-            # one exception type per backend (OSError on the file system, a botocore ClientError on the object stores)
-            kinds = ["exc-before", "kbi"] if backend == "local" else ["other-before", "exc-after", "kbi"]
-        ks = list(range(ncalls))
-        first_commit = next((i for i, e in enumerate(clean.log) if "Transaction.commit" in e["phase"] or "SnapshotManager.delete_snapshot" in e["phase"]), 0)
-        if config != "default":
-            ks = ks[first_commit:]
-        elif quick and len(ks) > 30:
-            # keep every call from the start of commit() on, sample the prefix
-            ks = sorted(set(ks[first_commit:] + ctx.rng.sample(ks[:first_commit], min(6, first_commit))))
-        plans = [(k, None, fk, False) for k in ks for fk in kinds]
-        # persistent faults: one plan per distinct (operation, class of path) the commit issues, failing from its first use on
-        seen_cls = set()
-        for k in range(first_commit, ncalls):
-            e = clean.log[k]
-            key = (e["op"], P.path_class(e["path"]))
-            if key in seen_cls:
+        # ---- PROCESS-WIDE CONFIGURATION (harness/lib/procconf.py) as a dimension.  Every named configuration and some arbitrary
+        # configuration histories are classified by the storage / lock calls the fault-free commit issues under them: configurations
+        # under which the commit issues the same calls share ONE fault plan (each faulty run draws its configuration among them,
+        # by weight); a configuration under which the commit issues DIFFERENT calls (code that runs only when a log level is
+        # enabled, an environment switch) gets the whole fault plan of its own, over its own call indices.
+        groups: List[Dict[str, Any]] = [{"sig": call_signature(clean0), "clean": clean0, "members": [("default", [])]}]
+        cands = [(n, [list(e) for e in ev]) for n, ev in procconf.NAMED.items() if n != "default"]
+        cands += [("random", procconf.random_events(ctx.rng)) for _ in range(1 if quick else 3)]
+        for pname, pevents in cands:
+            cl = run_one(ctx, backend, opkind, style, config=config, pconf=pevents)
+            cl.root = ctx.scratch + "/c04"
+            if cl.outcomes["A0"][0] != "ok" or "error" in cl.final or cl.final.get("missing") or sig(cl.final) != sig(clean0.final):
+                ctx.violation(f"commit-nofault:{backend}:{opkind}:{style}:{config}:proc={pname}",
+                              f"a commit WITHOUT any fault under the process configuration {pname} {pevents} did not leave the table the same "
+                              f"commit leaves under the default configuration: {cl.outcomes['A0']} {cl.final.get('error') or cl.final.get('missing') or sig(cl.final)}",
+                              {"backend": backend, "op": opkind, "style": style, "config": config, "k": -1, "k2": None, "fault": "none",
+                               "pconf": pevents, "proc": pname})
                 continue
-            seen_cls.add(key)
-            plans.append((k, None, "exc-before", True))
-            if not quick:
-                plans.append((k, None, "other-before", True))
-        if not quick and opkind == "append" and config == "default":
-            pairs = [(k, k2) for k in ks for k2 in ks if k2 > k]
-            for k, k2 in ctx.rng.sample(pairs, min(150, len(pairs))):
-                plans.append((k, k2, ctx.rng.choice(kinds), False))
-        for k, k2, fk, sticky in plans:
-            res = run_one(ctx, backend, opkind, style, make_inject(k, fk, k2, sticky), config=config)
-            res.root = ctx.scratch + "/c04"
-            total += 1
-            ctx.count(1, (backend, opkind, style, config, k, k2, fk, sticky))
-            why = oracle(ctx, backend, opkind, style, k, fk, res, pre, post)
-            at = res.log[k] if k < len(res.log) else {}
-            where = (at.get("phase") or ("?",))[-1]
-            if why:
-                ctx.violation(f"commit-fault:{fk}{'-persistent' if sticky else ''}:{backend}:{opkind}:{style}:{config}:{where}",
-                              f"{why} [fault {fk}{' (persistent: every later call of the same kind fails too)' if sticky else ''} at call {k} "
-                              f"({at.get('op')} {P.path_class(at.get('path', ''))} in {where}); table history: {config}]",
-                              {"backend": backend, "op": opkind, "style": style, "config": config, "k": k, "k2": k2, "fault": fk,
-                               "sticky": sticky, "outcome": res.outcomes["A0"]})
-            if style == "reuse":
-                reuse_runs[0] += 1
-                continue        # the second transaction on the reused object is outside the one-commit model: oracle only
-            ot = observed_tail(res)
-            if ot is not None:
-                tail_obs.append(({"backend": backend, "op": opkind, "style": style, "config": config, "k": k, "fault": fk, "sticky": sticky}, opkind, ot))
-            try:
-                evs, notes = project_fault(res, backend == "s3cas")
-            except P.Nonconforming as e:
-                bad.append({"backend": backend, "op": opkind, "style": style, "config": config, "k": k, "fault": fk, "sticky": sticky,
-                            "nonconforming": str(e)})
-                continue
-            exprs.append(model_expr(res, opkind, backend, evs))
-            meta_runs.append((backend, opkind, style, k, k2, fk, res, evs, post, config, notes))
+            sg = call_signature(cl)
+            g = next((g for g in groups if g["sig"] == sg), None)
+            if g is None:
+                groups.append({"sig": sg, "clean": cl, "members": [(pname, pevents)]})
+            else:
+                g["members"].append((pname, pevents))
+        if len(groups) > 1:
+            pc_split[f"{backend}/{opkind}/{style}/{config}"] = [[n for n, _e in g["members"]] for g in groups]
+        for gi, grp in enumerate(groups):
+            run_plan(ctx, quick, backend, opkind, style, config, grp, "" if gi == 0 else f":proc={grp['members'][0][0]}",
+                     pc_ring, pc_dist, tail_obs, exprs, meta_runs, bad, reuse_runs, counters)
+    total = counters["total"]
+    ctx.stats["process_configurations_that_change_the_calls_of_a_commit"] = pc_split
     ctx.stats["table_histories"] = sorted({c for _b, _o, _s, c in combos})
     # local backend: the n-th fsync of the commit fails (files before their rename, directories after it)
     for opkind, style in ([("append", "with"), ("append", "explicit")] if quick else [("append", "with"), ("append", "explicit"), ("expire", "with"), ("delete_snapshot", "with")]):
@@ -627,17 +723,21 @@ def run(ctx) -> None:
         pre, post = sig(clean.initial), sig(clean.final)
         ctx.stats.setdefault("fsyncs_per_commit", {})[f"{opkind}/{style}"] = cnt.seen
         for n in range(1, cnt.seen + 1):
+            pname = ctx.rng.choice(pc_ring)
+            pevents = [list(e) for e in procconf.NAMED[pname]]
+            pc_dist[pname] = pc_dist.get(pname, 0) + 1
             with OsFsyncFault(n):
-                res = run_one(ctx, "local", opkind, style)
+                res = run_one(ctx, "local", opkind, style, pconf=pevents)
             res.root = ctx.scratch + "/c04"
             total += 1
             reuse_runs[0] += 1          # (not part of the model comparison: no storage-level event is faulted)
             ctx.count(1, ("local", opkind, style, "fsync", n))
             why = oracle(ctx, "local", opkind, style, -1, "exc-before", res, pre, post)
             if why:
-                ctx.violation(f"commit-fault:os-fsync:local:{opkind}:{style}", f"{why} [the {n}-th fsync of the commit failed with EIO]",
-                              {"backend": "local", "op": opkind, "style": style, "fsync_n": n, "outcome": res.outcomes["A0"]})
+                ctx.violation(f"commit-fault:os-fsync:local:{opkind}:{style}", f"{why} [the {n}-th fsync of the commit failed with EIO; process configuration {pname}]",
+                              {"backend": "local", "op": opkind, "style": style, "fsync_n": n, "outcome": res.outcomes["A0"], "proc": pname, "pconf": pevents})
     ctx.stats["faulty_runs"] = total
+    ctx.stats["process_configurations_of_faulty_runs"] = dict(sorted(pc_dist.items()))
     ctx.stats["runs_reusing_the_transaction_object_oracle_only"] = reuse_runs[0]
     try:
         vals = coqbuild.coq_eval(REQ, exprs, chunk=80)
@@ -675,7 +775,7 @@ def run(ctx) -> None:
     for _w, opkind, (kinds_, complete, faults) in tail_obs:
         tl = TAIL_OF[opkind]
         tkeys.setdefault(("word", tl, tuple(kinds_), complete),
-                         f"{'tail_accepts' if complete else 'tail_accepts_prefix'} {tl} [{'; '.join(kinds_)}]")
+                         f"{'tail_accepts' if complete else 'tail_accepts_prefix'} (observable {tl}) [{'; '.join(kinds_)}]")
         for k_, esc in faults:
             tkeys.setdefault(("call", tl, k_, esc), f"has_call {k_} {'false' if esc else 'true'} {tl}")
     tkl = list(tkeys)
@@ -706,11 +806,12 @@ def run(ctx) -> None:
 
 def replay(ctx, payload) -> int:
     c = payload.get("case", {})
+    pconf = c.get("pconf") or []
     if "fsync_n" in c:
         clean = run_one(ctx, c["backend"], c["op"], c["style"])
         clean.root = ctx.scratch + "/c04"
         with OsFsyncFault(c["fsync_n"]):
-            res = run_one(ctx, c["backend"], c["op"], c["style"])
+            res = run_one(ctx, c["backend"], c["op"], c["style"], pconf=pconf)
         res.root = ctx.scratch + "/c04"
         why = oracle(ctx, c["backend"], c["op"], c["style"], -1, "exc-before", res, sig(clean.initial), sig(clean.final))
         print("replay:", "STILL FAILS: " + why if why else "passes now")
@@ -722,10 +823,17 @@ def replay(ctx, payload) -> int:
     clean = run_one(ctx, c["backend"], c["op"], c["style"], config=config)
     clean.root = ctx.scratch + "/c04"
     if c.get("fault") == "none":
+        if pconf:
+            ref = clean
+            clean = run_one(ctx, c["backend"], c["op"], c["style"], config=config, pconf=pconf)
+            clean.root = ctx.scratch + "/c04"
+            if "error" not in clean.final and sig(clean.final) != sig(ref.final):
+                print("replay:", f"STILL FAILS: fault-free commit under process configuration {pconf}: {sig(clean.final)} vs {sig(ref.final)} under the default")
+                return 1
         bad_clean = clean.outcomes["A0"][0] != "ok" or "error" in clean.final or clean.final.get("missing")
         print("replay:", f"STILL FAILS: fault-free commit on history {config}: {clean.outcomes['A0']}" if bad_clean else "passes now")
         return 1 if bad_clean else 0
-    res = run_one(ctx, c["backend"], c["op"], c["style"], make_inject(c["k"], c["fault"], c.get("k2"), bool(c.get("sticky"))), config=config)
+    res = run_one(ctx, c["backend"], c["op"], c["style"], make_inject(c["k"], c["fault"], c.get("k2"), bool(c.get("sticky"))), config=config, pconf=pconf)
     res.root = ctx.scratch + "/c04"
     why = oracle(ctx, c["backend"], c["op"], c["style"], c["k"], c["fault"], res, sig(clean.initial), sig(clean.final))
     print("replay:", "STILL FAILS: " + why if why else "passes now")
